@@ -284,6 +284,38 @@ def r12(repo, rep):
                     why = "max_weight may only be raised to a weight that exceeds it (or recomputed exactly)"
                 rep.ob("R12.I2", ok, "%s: assignment of max_weight" % f.name,
                        detail="" if ok else why, func=f, node=st)
+    # _update_max_weight: the exact maximum of the current weights, whatever the assignment form
+    umw = m["_update_max_weight"]
+    env_u = {}
+    for n_ in own_nodes(umw.node):
+        if isinstance(n_, ast.Assign) and isinstance(n_.targets[0], ast.Name):
+            env_u[n_.targets[0].id] = n_.value
+    got_max = False
+    bad_assign = None
+    for n_ in own_nodes(umw.node):
+        if isinstance(n_, ast.Assign):
+            tg = n_.targets[0]
+            flat = list(tg.elts) if isinstance(tg, ast.Tuple) else [tg]
+            if any(_is_self_attr(t, "max_weight") for t in flat):
+                v = n_.value
+                if isinstance(tg, ast.Tuple):
+                    bad_assign = n_
+                    continue
+                if isinstance(v, ast.Call) and attr_chain(v.func) == "max" and len(v.args) == 1:
+                    src = v.args[0]
+                    txt = short(src, 200)
+                    for nm, val in env_u.items():
+                        txt = txt.replace(nm, "(" + short(val, 200) + ")")
+                    if "self.weight" in txt:
+                        got_max = True
+                    else:
+                        bad_assign = n_
+                else:
+                    bad_assign = n_
+    rep.ob("R12.I2", got_max and bad_assign is None, "_update_max_weight: max_weight = the largest of the current weights", func=umw,
+           node=bad_assign if bad_assign is not None else umw.node, construct="_update_max_weight recomputation",
+           detail="" if (got_max and bad_assign is None) else "max_weight is recomputed as something other than max over the current weights "
+           "(%s): a bound that is too small makes rejection sampling accept heavy items with certainty" % (short(bad_assign, 80) if bad_assign is not None else "no max(...) found"))
     # remove(): recompute when the last heaviest element leaves
     rem = m["remove"]
     called = False
